@@ -34,6 +34,10 @@ pub struct Case {
   /// packages the root module does not import itself at the start (bit mask)
   #[serde(default)]
   pub root_skip: u8,
+  /// the first package has one more entrypoint, an untyped JavaScript file
+  /// (the package then fails fast check before anything is traced)
+  #[serde(default)]
+  pub js_entry: bool,
 }
 
 pub fn spec() -> PropSpec<Case> {
@@ -62,14 +66,15 @@ pub fn spec() -> PropSpec<Case> {
             cross_star,
             history,
             cross_kind,
-            root_skip,
+            js_entry: root_skip == 6 && cross_kind == 0,
+            root_skip: if root_skip == 6 && cross_kind == 0 { 0 } else { root_skip },
           }
         })
         .boxed()
     },
     check,
     cases: |tier| tier.pick(15_000, 200_000),
-    rule: "1-3 generated packages, each optionally depending on the next (`export * from \"jsr:...\"`, a by-name re-export, or an exported alias of an imported type), each imported by the root module or reachable only through its dependent; several entrypoints; histories of 3-7 steps over one shared cache: fast check, edit (toggle annotated / non-inferable, toggle export, change kind of one declaration, toggle whether the root imports a package), rebuild, fast check again; each cached fast check is shadowed by a cache-less run and a repeated cache-less run on clones of the same graph; non-trivial = some cached step hit the cache after an edit of a traced module (a stale entry existed) or hit it warm; distinct = distinct case JSON",
+    rule: "1-3 generated packages, each optionally depending on the next (`export * from \"jsr:...\"`, a by-name re-export, or an exported alias of an imported type), each imported by the root module or reachable only through its dependent; several entrypoints, in an eighth of the cases one of them an untyped JavaScript file; histories of 3-7 steps over one shared cache: fast check, edit (toggle annotated / non-inferable, toggle export, change kind of one declaration, toggle whether the root imports a package), rebuild, fast check again; each cached fast check is shadowed by a cache-less run and a repeated cache-less run on clones of the same graph; non-trivial = some cached step hit the cache after an edit of a traced module (a stale entry existed) or hit it warm; distinct = distinct case JSON",
     assumptions: &[
       "packages are analysed as registry packages (should_error_on_first_diagnostic = true)",
       "'public API modules' of a package are the modules that have any fast-check slot; the all-or-nothing clause is: no diagnostics anywhere in the package if any module has output, and every entrypoint carries diagnostics if none has",
@@ -242,7 +247,15 @@ fn apply_edit(pkgs: &mut [RawPackage], root_skip: &mut u8, pkg: u8, decl: u16, w
 }
 
 fn build(pkgs: &[RawPackage], cross_star: bool, cross_kind: u8, root_skip: u8) -> (Vec<Package>, ModuleGraph) {
+  build_with(pkgs, cross_star, cross_kind, root_skip, false)
+}
+
+fn build_with(pkgs: &[RawPackage], cross_star: bool, cross_kind: u8, root_skip: u8, js_entry: bool) -> (Vec<Package>, ModuleGraph) {
   let mut built: Vec<Package> = pkgs.iter().map(tsgen::build).collect();
+  if js_entry {
+    built[0].files.insert("/x.js".to_string(), "export function f() { return 1; }\n".to_string());
+    built[0].exports.push(("./js".to_string(), "./x.js".to_string()));
+  }
   // package k depends on package k+1
   for k in 0..built.len().saturating_sub(1) {
     let dep = format!("jsr:{}{}@{}", fc::PKG_NAME, k + 1, fc::PKG_VERSION);
@@ -285,7 +298,7 @@ pub fn check(case: &Case, _tier: Tier) -> Outcome {
         }
       }
       Step::FastCheck => {
-        let (built, graph) = build(&raws, case.cross_star, case.cross_kind, root_skip);
+        let (built, graph) = build_with(&raws, case.cross_star, case.cross_kind, root_skip, case.js_entry);
         if graph.module_errors().next().is_some() {
           o.discarded = true;
           return o;
@@ -395,7 +408,7 @@ pub fn trace(case: &Case) {
         println!("=== edit {:?} (root_skip {root_skip:b})", apply_edit(&mut raws, &mut root_skip, *pkg, *decl, *what));
       }
       Step::FastCheck => {
-        let (built, graph) = build(&raws, case.cross_star, case.cross_kind, root_skip);
+        let (built, graph) = build_with(&raws, case.cross_star, case.cross_kind, root_skip, case.js_entry);
         println!("=== fast check");
         for (k, b) in built.iter().enumerate() {
           for (p, t) in &b.files {
